@@ -70,6 +70,10 @@ func suiteC02(s *Suite, rng *Rng, tier string) {
 			return specs, rng.Bool()
 		}
 		sp1, sig1 := mk()
+		// the boundary contexts 0 and 1 (1 is the default context of the keyshare protocol) are sessions like any other
+		if round%3 == 2 {
+			forcedContext = bi(int64(round / 3 % 2))
+		}
 		sess := buildSession(sp1, rng, sig1)
 		sp2, sig2 := mk()
 		other := buildSession(sp2, rng, sig2) // another session, same secret: source of spliced proofs
@@ -112,6 +116,11 @@ func suiteC02(s *Suite, rng *Rng, tier string) {
 		check("ctx-random", sess.Pks, rng.Bits(200), sess.Nonce, sess.IsSig, sess.List, true, false)
 		check("nonce-random", sess.Pks, sess.Context, rng.Bits(80), sess.IsSig, sess.List, true, false)
 		check("ctx-nonce-swapped", sess.Pks, sess.Nonce, sess.Context, sess.IsSig, sess.List, true, false)
+		if sess.Context.BitLen() <= 1 {
+			check("ctx-0-versus-1", sess.Pks, new(gbig.Int).Xor(sess.Context, bi(1)), sess.Nonce, sess.IsSig, sess.List, true, false)
+		}
+		check("ctx=0", sess.Pks, bi(0), sess.Nonce, sess.IsSig, sess.List, sess.Context.Sign() != 0, false)
+		check("ctx=1", sess.Pks, bi(1), sess.Nonce, sess.IsSig, sess.List, sess.Context.Cmp(bi(1)) != 0, false)
 		check("flag", sess.Pks, sess.Context, sess.Nonce, !sess.IsSig, sess.List, true, false)
 		// all permutations
 		if n <= 4 {
@@ -393,6 +402,47 @@ func suiteC03(s *Suite, rng *Rng, tier string) {
 			s.Nontrivial[fmt.Sprint("pooled", it, labels)] = true
 			if acc {
 				s.Violate("C03:pooled-secrets-linked", fmt.Sprintf("two credentials over different secrets (%d- and %d-bit keys) were accepted as sharing one secret after shifting both signatures to a common oversized exponent", k1.Bits, k2.Bits), L{it, len(labels)})
+			}
+		}
+	}
+	// ---- a credential on secret m linked with an issuance commitment on secret -m: the commitment is made with randomizer -r,
+	//      so its response for the secret is the negation of the credential's; responses are compared as they were sent ----
+	for it := 0; it < 2; it++ {
+		kp := keys[2]
+		if it == 1 {
+			kp = keys[3]
+		}
+		m := new(gbig.Int).Add(newSecret(rng), bi(1))
+		cred := issueCredential(kp, m, []*gbig.Int{rng.Bits(60), rng.Bits(60)}, rng)
+		for _, labels := range [][]string{nil, {"ks", "ks"}, {"", ""}} {
+			ctx, nonce := rng.Bits(200), rng.Bits(80)
+			db, err := cred.CreateDisclosureProofBuilder([]int{1, 2}, nil, false)
+			if err != nil {
+				panic(err)
+			}
+			rz, _ := gabi.NewProofRandomizers()
+			r := rz["secretkey"]
+			cb, err := gabi.NewCredentialBuilder(kp.Pk, ctx, new(gbig.Int).Neg(m), rng.Bits(80), nil, nil)
+			if err != nil {
+				continue
+			}
+			cd, err1 := db.Commit(map[string]*gbig.Int{"secretkey": r})
+			cu, err2 := cb.Commit(map[string]*gbig.Int{"secretkey": new(gbig.Int).Neg(r)})
+			if err1 != nil || err2 != nil {
+				continue
+			}
+			c := gabi.VerifCreateChallenge(ctx, nonce, append(append([]*gbig.Int{}, cd...), cu...), false)
+			pd := db.CreateProof(c).(*gabi.ProofD)
+			pu := cb.CreateProof(c).(*gabi.ProofU)
+			before := new(gbig.Int).Set(pu.SResponse)
+			pl := gabi.ProofList{pd, pu}
+			_, acc, _ := verifyCase(s, "negated-secret", false, []*gabikeys.PublicKey{kp.Pk, kp.Pk}, ctx, nonce, false, labels, pl)
+			s.Nontrivial[fmt.Sprint("negated", it, labels)] = true
+			if acc {
+				s.Violate("C03:negated-secret-linked", "a credential on secret m and an issuance commitment on secret -m were accepted as sharing one secret", L{it, len(labels)})
+			}
+			if pu.SResponse.Cmp(before) != 0 {
+				s.Violate("C03:verification-rewrote-response", "ProofList.Verify changed the secret-key response of a proof it was given", L{it, len(labels)})
 			}
 		}
 	}
